@@ -108,13 +108,15 @@ structure Shrunk (s s' : St) : Prop where
     (o'.deleting = false → o' = o)
   foreign0 : s'.foreign0 = s.foreign0
   keepForeign : ∀ o ∈ s.objs, o.ctrl = .other → o ∈ s'.objs
+  /-- the set of cache misses is an input of the reconcile: no request writes it -/
+  miss : s'.miss = s.miss
 
 theorem Shrunk.rfl' {s : St} (hg : Good s) : Shrunk s s :=
-  ⟨rfl, hg.nodup, fun o ho => ⟨o, ho, rfl, rfl, rfl, fun _ => rfl⟩, rfl, fun _ h _ => h⟩
+  ⟨rfl, hg.nodup, fun o ho => ⟨o, ho, rfl, rfl, rfl, fun _ => rfl⟩, rfl, fun _ h _ => h, rfl⟩
 
 theorem Shrunk.trans {s1 s2 s3 : St} (h12 : Shrunk s1 s2) (h23 : Shrunk s2 s3) : Shrunk s1 s3 := by
   refine ⟨h23.refs.trans h12.refs, h23.nodup, ?_, h23.foreign0.trans h12.foreign0,
-    fun o ho hc => h23.keepForeign o (h12.keepForeign o ho hc) hc⟩
+    fun o ho hc => h23.keepForeign o (h12.keepForeign o ho hc) hc, h23.miss.trans h12.miss⟩
   intro o3 ho3
   obtain ⟨o2, ho2, hk, ha, hc, hd⟩ := h23.sub o3 ho3
   obtain ⟨o1, ho1, hk', ha', hc', hd'⟩ := h12.sub o2 ho2
@@ -183,7 +185,7 @@ theorem exec_delete_shrunk (s : St) (hn : (s.objs.map key).Nodup) (k n : String)
   cases hf : findObj s.objs k n with
   | none =>
     rw [exec_delete_none hf]
-    refine ⟨⟨rfl, hn, fun o ho => ⟨o, ho, rfl, rfl, rfl, fun _ => rfl⟩, rfl, fun _ h _ => h⟩, ?_⟩
+    refine ⟨⟨rfl, hn, fun o ho => ⟨o, ho, rfl, rfl, rfl, fun _ => rfl⟩, rfl, fun _ h _ => h, rfl⟩, ?_⟩
     intro o ho hk
     exact absurd ((key_eq_iff o k n).mp hk) (findObj_none hf o ho)
   | some o0 =>
@@ -206,7 +208,7 @@ theorem exec_delete_shrunk (s : St) (hn : (s.objs.map key).Nodup) (k n : String)
         apply mem_mapObj.mpr
         refine ⟨o, ho, ?_⟩
         simp [hkeep o ho hc]
-      refine ⟨⟨rfl, h1, h2, rfl, h3⟩, ?_⟩
+      refine ⟨⟨rfl, h1, h2, rfl, h3, rfl⟩, ?_⟩
       intro o' ho' hk
       obtain ⟨o, ho, he⟩ := mem_mapObj.mp ho'
       subst he
@@ -216,7 +218,7 @@ theorem exec_delete_shrunk (s : St) (hn : (s.objs.map key).Nodup) (k n : String)
         exact absurd ((key_eq_iff o k n).mp hk) hm
     | false =>
       rw [exec_delete_nofin hf hfin]
-      refine ⟨⟨rfl, nodup_removeObj hn, ?_, rfl, ?_⟩, ?_⟩
+      refine ⟨⟨rfl, nodup_removeObj hn, ?_, rfl, ?_, rfl⟩, ?_⟩
       · intro o' ho'
         exact ⟨o', (mem_removeObj.mp ho').1, rfl, rfl, rfl, fun _ => rfl⟩
       · intro o ho hc
@@ -270,6 +272,54 @@ theorem exec_getObj_some {s : St} {k n : String} {o : CObj} (h : findObj s.objs 
 
 theorem exec_getObj_none {s : St} {k n : String} (h : findObj s.objs k n = none) :
     exec s (.getObj k n) = (s, .notFound) := by simp [exec, h]
+
+/-! ### reads through the informer cache -/
+
+theorem exec_getCached_miss {s : St} {k n : String} (h : (⟨k, n⟩ : Ref) ∈ s.miss) :
+    exec s (.getCached k n) = (s, .notFound) := by simp [exec, h]
+
+theorem exec_getCached_hit {s : St} {k n : String} (h : (⟨k, n⟩ : Ref) ∉ s.miss) :
+    exec s (.getCached k n) = exec s (.getObj k n) := by simp [exec, h]
+
+/-- an object that does not exist is not in the cache either -/
+theorem exec_getCached_none {s : St} {k n : String} (h : findObj s.objs k n = none) :
+    exec s (.getCached k n) = (s, .notFound) := by
+  by_cases hm : (⟨k, n⟩ : Ref) ∈ s.miss
+  · exact exec_getCached_miss hm
+  · rw [exec_getCached_hit hm, exec_getObj_none h]
+
+theorem exec_getCached_some {s : St} {k n : String} {o : CObj} (h : findObj s.objs k n = some o)
+    (hm : (⟨k, n⟩ : Ref) ∉ s.miss) : exec s (.getCached k n) = (s, .found o) := by
+  rw [exec_getCached_hit hm, exec_getObj_some h]
+
+/-- a cached read answers NotFound, or the object the store holds -/
+theorem exec_getCached_resp (s : St) (k n : String) :
+    exec s (.getCached k n) = (s, .notFound) ∨
+    ∃ o, findObj s.objs k n = some o ∧ exec s (.getCached k n) = (s, .found o) := by
+  cases hf : findObj s.objs k n with
+  | none => exact Or.inl (exec_getCached_none hf)
+  | some o =>
+    by_cases hm : (⟨k, n⟩ : Ref) ∈ s.miss
+    · exact Or.inl (exec_getCached_miss hm)
+    · exact Or.inr ⟨o, rfl, exec_getCached_some hf hm⟩
+
+/-- no request writes the set of cache misses -/
+theorem exec_miss (s : St) (r : Req) : (exec s r).1.miss = s.miss := by
+  cases r <;> simp only [exec] <;> (repeat' split) <;> rfl
+
+/-- the names the generator proposes are not names of objects that exist but are missing from
+the cache: then "the cache says the name is free" means the name is free. (The code accepts
+this risk knowingly: `names.nameGenerator.GenerateName` probes a random 5-character suffix with
+the cached client, "names can become unavailable shortly after".) -/
+def FreshAvoids (miss : List Ref) (fresh : List String) : Prop := ∀ x ∈ fresh, ∀ r ∈ miss, r.name ≠ x
+
+theorem FreshAvoids.tail {miss : List Ref} {x : String} {xs : List String} (h : FreshAvoids miss (x :: xs)) :
+    FreshAvoids miss xs := fun y hy => h y (List.mem_cons_of_mem _ hy)
+
+theorem FreshAvoids.head {miss : List Ref} {x : String} {xs : List String} (h : FreshAvoids miss (x :: xs))
+    (k : String) : (⟨k, x⟩ : Ref) ∉ miss := fun hm => h x (List.mem_cons_self ..) _ hm rfl
+
+theorem FreshAvoids.nil (fresh : List String) : FreshAvoids [] fresh := fun _ _ _ h => by cases h
 
 /-! ### observed-resource map -/
 
@@ -431,15 +481,19 @@ theorem safe_observeFn {s : St} (hg : Good s) (lrv : Nat) (k : Obs → P) :
             exact ih (done ++ [r]) _ hrs' hdone' (obsOKp_insert hg r o hacc hdone hr hm hko hc ha) hk'
       cases hf : findObj s.objs r.kind r.name with
       | some o =>
-        simp only [Safe, sem, exec_getObj_some hf, isRead, if_true]
-        exact ⟨hg, hfound o hf, safe_onError hg _, safe_onError hg _⟩
+        by_cases hm : (⟨r.kind, r.name⟩ : Ref) ∈ s.miss
+        · -- missing from the cache: the live read finds it
+          simp only [Safe, sem, exec_getCached_miss hm, exec_getObj_some hf, isRead, if_true]
+          exact ⟨hg, ⟨hg, hfound o hf, safe_onError hg _, safe_onError hg _⟩, safe_onError hg _, safe_onError hg _⟩
+        · simp only [Safe, sem, exec_getCached_some hf hm, isRead, if_true]
+          exact ⟨hg, hfound o hf, safe_onError hg _, safe_onError hg _⟩
       | none =>
         have hnone : Safe sem Good (observeFn lrv rs acc k) s := by
           apply ih (done ++ [r]) acc hrs' hdone' _ hk'
           apply obsOKp_skip r hacc
           intro o ho hko
           exact absurd ((key_eq_iff o r.kind r.name).mp (by cases r; simpa [key] using hko)) (findObj_none hf o ho)
-        simp only [Safe, sem, exec_getObj_none hf, isRead, if_true]
+        simp only [Safe, sem, exec_getCached_none hf, exec_getObj_none hf, isRead, if_true]
         exact ⟨hg, ⟨hg, hnone, safe_onError hg _, safe_onError hg _⟩, safe_onError hg _, safe_onError hg _⟩
 
 
@@ -459,7 +513,7 @@ structure NamedOK (s : St) (obs : Obs) (ds : List Desired) (named : List Named) 
 theorem safe_renderFn {s : St} (hg : Good s) (lrv : Nat) (obs : Obs) (ds0 : List Desired) (k : List Named → P)
     (hk : ∀ named, NamedOK s obs ds0 named → Safe sem Good (k named) s) :
     ∀ (ds : List Desired) (fresh : List String) (acc : List Named),
-      (∀ x ∈ fresh, x ≠ "") →
+      (∀ x ∈ fresh, x ≠ "") → FreshAvoids s.miss fresh →
       (∀ n ∈ acc, Entry s obs n) → (∀ n ∈ acc, n.d ∈ ds0) → (∀ d ∈ ds, d ∈ ds0) →
       (∀ d ∈ ds0, d ∈ ds ∨ ∃ n ∈ acc, n.d = d) →
       (ds.map (·.rname) ++ acc.map (·.d.rname)).Nodup →
@@ -467,7 +521,7 @@ theorem safe_renderFn {s : St} (hg : Good s) (lrv : Nat) (obs : Obs) (ds0 : List
   intro ds
   induction ds with
   | nil =>
-    intro fresh acc _ he hf _ hc hn
+    intro fresh acc _ _ he hf _ hc hn
     simp only [renderFn]
     apply hk
     refine ⟨?_, ?_, ?_, ?_⟩
@@ -480,14 +534,15 @@ theorem safe_renderFn {s : St} (hg : Good s) (lrv : Nat) (obs : Obs) (ds0 : List
     · simp only [List.map_nil, List.nil_append] at hn
       rw [List.map_reverse]; exact (List.reverse_perm _).nodup_iff.mpr hn
   | cons d ds ih =>
-    intro fresh acc hfr he hf hds hc hn
+    intro fresh acc hfr hfm he hf hds hc hn
     have hds' : ∀ x ∈ ds, x ∈ ds0 := fun x hx => hds x (List.mem_cons_of_mem _ hx)
     have hd0 : d ∈ ds0 := hds d (List.mem_cons_self ..)
     -- moving `d` from the todo list to the accumulator keeps the bookkeeping
     have step : ∀ (nm : Named), nm.d = d → Entry s obs nm → ∀ fresh', (∀ x ∈ fresh', x ≠ "") →
+        FreshAvoids s.miss fresh' →
         Safe sem Good (renderFn lrv obs ds fresh' (nm :: acc) k) s := by
-      intro nm hnd hent fresh' hfr'
-      apply ih fresh' (nm :: acc) hfr'
+      intro nm hnd hent fresh' hfr' hfm'
+      apply ih fresh' (nm :: acc) hfr' hfm'
       · intro n hn'; rcases List.mem_cons.mp hn' with rfl | h; exact hent; exact he n h
       · intro n hn'; rcases List.mem_cons.mp hn' with rfl | h; exact hnd ▸ hd0; exact hf n h
       · exact hds'
@@ -505,7 +560,7 @@ theorem safe_renderFn {s : St} (hg : Good s) (lrv : Nat) (obs : Obs) (ds0 : List
     cases hl : obsLookup obs d.rname with
     | some o =>
       simp only []
-      exact step ⟨d, o.name, false⟩ rfl (by simp [Entry, hl]) fresh hfr
+      exact step ⟨d, o.name, false⟩ rfl (by simp [Entry, hl]) fresh hfr hfm
     | none =>
       simp only []
       cases fresh with
@@ -513,14 +568,16 @@ theorem safe_renderFn {s : St} (hg : Good s) (lrv : Nat) (obs : Obs) (ds0 : List
       | cons nm fresh' =>
         simp only []
         have hfr' : ∀ x ∈ fresh', x ≠ "" := fun x hx => hfr x (List.mem_cons_of_mem _ hx)
+        -- the proposed name is not the name of an object missing from the cache: the probe is exact
+        have hm : (⟨d.kind, nm⟩ : Ref) ∉ s.miss := hfm.head d.kind
         cases hfo : findObj s.objs d.kind nm with
         | some o =>
-          simp only [Safe, sem, exec_getObj_some hfo, isRead, if_true]
+          simp only [Safe, sem, exec_getCached_some hfo hm, isRead, if_true]
           exact ⟨hg, safe_onError hg _, safe_onError hg _, safe_onError hg _⟩
         | none =>
-          simp only [Safe, sem, exec_getObj_none hfo, isRead, if_true]
+          simp only [Safe, sem, exec_getCached_none hfo, isRead, if_true]
           refine ⟨hg, ?_, safe_onError hg _, safe_onError hg _⟩
-          exact step ⟨d, nm, true⟩ rfl (by simp [Entry, hl, hfo, hfr nm (List.mem_cons_self ..)]) fresh' hfr'
+          exact step ⟨d, nm, true⟩ rfl (by simp [Entry, hl, hfo, hfr nm (List.mem_cons_self ..)]) fresh' hfr' hfm.tail
 
 /-! ### garbage-collection loop -/
 
@@ -853,7 +910,8 @@ theorem Good.congr {s s' : St} (hg : Good s) (hr : s'.refs = s.refs) (ho : s'.ob
 theorem exec_statusPatch (s : St) : exec s .statusPatch = (s, .okRv s.xrRv) := by simp [exec]
 
 theorem safe_composeFn {s : St} (hg : Good s) (lrv : Nat) (out : Obs → FnOut) (ch : Choices)
-    (ho : OutOK out) (hc : ChOK ch) : Safe sem Good (composeFn lrv s.refs out ch) s := by
+    (ho : OutOK out) (hc : ChOK ch) (hfm : FreshAvoids s.miss ch.fresh) :
+    Safe sem Good (composeFn lrv s.refs out ch) s := by
   unfold composeFn
   apply safe_observeFn hg lrv _ s.refs [] [] (fun r h => h) (by intro r h; cases h)
   · refine ⟨?_, ?_, ?_⟩
@@ -866,7 +924,7 @@ theorem safe_composeFn {s : St} (hg : Good s) (lrv : Nat) (out : Obs → FnOut) 
     | failed => exact safe_onError hg _
     | desired ds =>
       simp only []
-      apply safe_renderFn hg lrv obs ds _ _ ds ch.fresh [] hc.fresh (by intro n h; cases h) (by intro n h; cases h)
+      apply safe_renderFn hg lrv obs ds _ _ ds ch.fresh [] hc.fresh hfm (by intro n h; cases h) (by intro n h; cases h)
         (fun d h => h) (fun d h => Or.inl h) (by simpa using ho.nodup obs ds hout)
       intro named hnamed
       apply safe_gcFn lrv _ _ s hg
@@ -899,7 +957,7 @@ theorem exec_addFinalizer (s : St) : exec s (.addFinalizer s.xrRv) =
 /-- Reconcile is safe as soon as the composer body is (for every local resourceVersion and
 from every good store with the same references and objects). -/
 theorem safe_reconcile_of_body {s : St} (hg : Good s) (m : Mode)
-    (hbody : ∀ (s' : St) (lrv : Nat), Good s' → s'.refs = s.refs →
+    (hbody : ∀ (s' : St) (lrv : Nat), Good s' → s'.refs = s.refs → s'.miss = s.miss →
       Safe sem Good (match m with
         | .fn out ch => composeFn lrv s.refs out ch
         | .pt tmpl fresh ver => composePT lrv s.refs tmpl fresh ver) s') :
@@ -916,17 +974,65 @@ theorem safe_reconcile_of_body {s : St} (hg : Good s) (m : Mode)
   refine ⟨hg, ?_, trivial, trivial⟩
   by_cases hf : s.xrFin = true
   · rw [if_pos hf]
-    exact hbody s _ hg rfl
+    exact hbody s _ hg rfl rfl
   · rw [if_neg hf]
     simp only [Safe, haf, hfail, hread]
-    exact ⟨hg1, hbody _ _ hg1 rfl, safe_onError hg _, safe_onConflict _⟩
+    exact ⟨hg1, hbody _ _ hg1 rfl rfl, safe_onError hg _, safe_onConflict _⟩
 
 theorem safe_reconcile_fn {s : St} (hg : Good s) (out : Obs → FnOut) (ch : Choices)
-    (ho : OutOK out) (hc : ChOK ch) : Safe sem Good (reconcile (.fn out ch)) s := by
+    (ho : OutOK out) (hc : ChOK ch) (hfm : FreshAvoids s.miss ch.fresh) :
+    Safe sem Good (reconcile (.fn out ch)) s := by
   apply safe_reconcile_of_body hg
-  intro s' lrv hg' hr
+  intro s' lrv hg' hr hmiss
   simp only []
   rw [← hr]
-  exact safe_composeFn hg' lrv out ch ho hc
+  exact safe_composeFn hg' lrv out ch ho hc (hmiss ▸ hfm)
+
+/-- the invariant does not mention the cache: any set of cache misses may be put into a good store -/
+theorem Good.withMiss {s : St} (hg : Good s) (ms : List Ref) : Good { s with miss := ms } :=
+  hg.congr rfl rfl rfl
+
+/-! ### histories in which the cache misses differ from reconcile to reconcile -/
+
+/-- every store visible at some instant of a history of reconciles; each reconcile runs under
+its own fault plan, with its own inputs, and with its own set of cache misses (set when the
+reconcile starts; controller-local state is lost in between) -/
+def reachRounds : List (List Ref × Plan × Mode) → St → List St
+  | [], s => [s]
+  | (ms, pl, m) :: rest, s =>
+    reach sem pl 0 (reconcile m) { s with miss := ms } ++
+      reachRounds rest (run sem pl 0 (reconcile m) { s with miss := ms }).1
+
+/-- the store such a history ends in -/
+def runRounds : List (List Ref × Plan × Mode) → St → St
+  | [], s => s
+  | (ms, pl, m) :: rest, s => runRounds rest (run sem pl 0 (reconcile m) { s with miss := ms }).1
+
+theorem runRounds_mem_reachRounds : ∀ (h : List (List Ref × Plan × Mode)) (s : St), runRounds h s ∈ reachRounds h s := by
+  intro h
+  induction h with
+  | nil => intro s; simp [runRounds, reachRounds]
+  | cons x rest ih =>
+    obtain ⟨ms, pl, m⟩ := x
+    intro s
+    simp only [runRounds, reachRounds, List.mem_append]
+    exact Or.inr (ih _)
+
+theorem reachRounds_inv (Inv : St → Prop) (ok : List Ref → Mode → Prop)
+    (hmiss : ∀ s ms, Inv s → Inv { s with miss := ms })
+    (hrec : ∀ (s : St) (pl : Plan) (m : Mode), Inv s → ok s.miss m → ∀ s' ∈ reach sem pl 0 (reconcile m) s, Inv s') :
+    ∀ (h : List (List Ref × Plan × Mode)), (∀ x ∈ h, ok x.1 x.2.2) → ∀ s, Inv s → ∀ s' ∈ reachRounds h s, Inv s' := by
+  intro h
+  induction h with
+  | nil => intro _ s hs s' hm; simp [reachRounds] at hm; subst hm; exact hs
+  | cons x rest ih =>
+    obtain ⟨ms, pl, m⟩ := x
+    intro hok s hs s' hm
+    simp only [reachRounds, List.mem_append] at hm
+    have hx : ok ms m := hok _ (List.mem_cons_self ..)
+    have h1 := hrec { s with miss := ms } pl m (hmiss s ms hs) hx
+    rcases hm with hm | hm
+    · exact h1 s' hm
+    · exact ih (fun y hy => hok y (List.mem_cons_of_mem _ hy)) _ (h1 _ (run_mem_reach sem pl 0 _ _)) s' hm
 
 end Xp.C01
